@@ -5,7 +5,9 @@ KEYWORDS = ["Minimize", "MAX", "Subject To", "ST", "Bounds", "BOUND", "Integer",
             "BOUNDS", "ENDATA", "OBJSENSE", "OBJNAME", "'MARKER'", "'INTORG'", "'INTEND'", "LO", "UP", "FX", "FR", "MI", "PL", "BV", "LI", "UI", "N", "L", "G",
             "E", "XU", "XL", "UL", "LL", "REFROW", "S1", "S2", "'SOSORG'", "'SOSEND'"]
 NUMBERS = ["0", "1", "-1", "1/0", "0/0", "-3/0", "1e", "1e+", ".", "-", "+", "+-+-1", "1e4000", "1e-4000", "9" * 400, "1/" + "7" * 300, "0.000000000000000000001",
-           "1.5/2.5", "--2", "1/2/3", "1e2e3", "0x10", "1,5", "١", "1e9999", "inf", "-infinity", "nan", "1d5"]
+           "1.5/2.5", "--2", "1/2/3", "1e2e3", "0x10", "1,5", "١", "1e9999", "inf", "-infinity", "nan", "1d5",
+           # a dot after the exponent digits: the exponent has three digits, what follows is not part of it
+           "1e-02.5", "1e-020.00500", "110e-020.00500E+3", "3e2.5", "7e+1.25/2", "1/2e3.00044"]
 GARBAGE = ["\x00", "\x01\x02", "\t\t", "\r", ":", "::", "<=", ">=", "=<>", "\\", "%s%n", "(", ")", "'", "\"", "x" * 300, "é", "\xff\xfe", "<", ">", "=", "*", "^", "[", "]"]
 
 
